@@ -118,13 +118,23 @@ class Parser:
                 ty = None
                 if self.at(":"):
                     self.next()
-                    ty = self.next()[1]      # a simple type annotation
+                    ty = self.next()[1]      # a type annotation: a path, possibly with generic arguments
+                    if self.at("<"):
+                        depth = 0
+                        while True:
+                            t = self.next()[1]
+                            depth += (t == "<") - (t == ">")
+                            if depth == 0:
+                                break
                 self.expect("=")
                 e = self.expr()
                 self.expect(";")
                 stmts.append(("let", name[1], e, ty))
                 continue
             e = self.expr()
+            if e[0] == "match" and not self.at("}") and not self.at(";") and self.peek()[0] != "eof":
+                stmts.append(("effect", e))     # a match used as a statement
+                continue
             if self.peek()[1] in ("*=", "+=", "-=", "/=", "="):
                 op = self.next()[1]
                 rhs = self.expr()
@@ -194,7 +204,13 @@ class Parser:
 
     def postfix(self):
         e = self.primary()
-        while self.at("."):
+        while self.at(".") or self.at("["):
+            if self.at("["):
+                self.next()
+                i = self.expr()
+                self.expect("]")
+                e = ("index", e, i)
+                continue
             self.next()
             name = self.next()
             if name[0] not in ("id", "num"):
@@ -229,6 +245,8 @@ class Parser:
             return e
         if text == "{":
             return self.block()
+        if text == "[":
+            return self.array()
         if text == "move" or text == "|":
             # a closure: [move] |pattern, ...| body
             if text == "move":
@@ -271,10 +289,23 @@ class Parser:
             if self.at("!") and self.peek(1)[1] == "(":
                 self.next()
                 return ("macro", text, self.args())
+            if self.at("!") and self.peek(1)[1] == "[":
+                self.next()
+                return ("macro", text, self.array()[1])
             if self.at("("):
                 return ("call", text, self.args())
             return ("var", text)
         raise TranslateError("unexpected token %r" % text)
+
+    def array(self):
+        self.expect("[")
+        items = []
+        while not self.at("]"):
+            items.append(self.expr())
+            if self.at(","):
+                self.next()
+        self.expect("]")
+        return ("array", items)
 
     def pattern(self):
         while self.at("&") or self.at("mut"):
@@ -348,6 +379,9 @@ def key(n):
     if k == "tuple":
         a = [key(x) for x in n[1]]
         return None if any(x is None for x in a) else "(%s)" % ",".join(a)
+    if k == "index":
+        l, r = key(n[1]), key(n[2])
+        return None if l is None or r is None else "%s[%s]" % (l, r)
     if k == "bin":
         l, r = key(n[2]), key(n[3])
         return None if l is None or r is None else "(%s %s %s)" % (l, n[1], r)
@@ -500,6 +534,8 @@ def emit(n, cx):
         return "(fun %s => %s)" % (" ".join(pat_text(p) for p in n[1]), emit(n[2], cx))
     if t == "tuple":
         return "(%s)" % ", ".join(emit(x, cx) for x in n[1])
+    if t == "array":
+        return "[%s]" % "; ".join(emit(x, cx) for x in n[1])
     if t == "if":
         return "(if %s then %s else %s)" % (emit(n[1], cx), emit(n[2], cx), emit(n[3], cx))
     if t == "block":
@@ -709,6 +745,56 @@ def emit_state(block, vars_, ints, ret, cx):
             raise TranslateError("unsupported statement (%s) in a state update" % s[0])
         return rest(0)
     return seq(block, lambda: "(false, %s)" % tup)
+
+
+def emit_push(block, vec, cx):
+    """a function that builds a Vec in the mutable variable `vec` (`let mut vec = vec![];`, `vec.push(e);`,
+    `vec.append(&mut e);`, under `if`, `match` on an enum and `for`) and returns it: the list, built in the same order"""
+    def seq(b, top):
+        if b[0] != "block":
+            raise TranslateError("not a block")
+
+        def rest(i):
+            if i == len(b[1]):
+                if top and b[2] != ("var", vec):
+                    raise TranslateError("the function does not end in `%s`" % vec)
+                if not top and b[2] is not None:
+                    raise TranslateError("a value in a statement block")
+                return vec
+            s = b[1][i]
+            if s[0] == "let" and s[1] == vec:
+                if s[2] != ("macro", "vec", []):
+                    raise TranslateError("`%s` does not start as vec![]" % vec)
+                return "(let %s := [] in %s)" % (vec, rest(i + 1))
+            if s[0] == "let":
+                return "(let %s := %s in %s)" % (s[1], emit(s[2], cx), rest(i + 1))
+            if s[0] == "effect" and s[1][0] == "method" and s[1][1] == ("var", vec) and len(s[1][3]) == 1:
+                arg = emit(s[1][3][0], cx)
+                if s[1][2] == "push":
+                    return "(let %s := %s ++ [%s] in %s)" % (vec, vec, arg, rest(i + 1))
+                if s[1][2] == "append":
+                    return "(let %s := %s ++ %s in %s)" % (vec, vec, arg, rest(i + 1))
+                raise TranslateError("unknown Vec method %s" % s[1][2])
+            if s[0] == "ifblock":
+                return "(let %s := (if %s then %s else %s) in %s)" % (vec, emit(s[1], cx), seq(s[2], False), vec, rest(i + 1))
+            if s[0] == "effect" and s[1][0] == "match":
+                arms = []
+                for pat, guard, body in s[1][2]:
+                    if guard is not None:
+                        raise TranslateError("a guard in a match over an enum")
+                    if pat[0] == "wild":
+                        p = "_"
+                    elif pat[0] == "bind" and pat[1] in cx.subst:
+                        p = cx.subst[pat[1]]
+                    else:
+                        raise TranslateError("unknown enum pattern %r" % (pat,))
+                    arms.append("| %s => %s" % (p, seq(body, False)))
+                return "(let %s := (match %s with %s end) in %s)" % (vec, emit(s[1][1], cx), " ".join(arms), rest(i + 1))
+            if s[0] == "for":
+                return "(let %s := fold_left (fun %s %s => %s) %s %s in %s)" % (vec, vec, pat_text(s[1]), seq(s[3], False), emit(s[2], cx), vec, rest(i + 1))
+            raise TranslateError("unsupported statement (%s) while building a Vec" % s[0])
+        return rest(0)
+    return seq(block, True)
 
 
 def chain(n):
